@@ -116,7 +116,7 @@ DataPageV1(pb, n, enc, leaf, dict) ==
                ELSE LET nn == CountEq(dl.vals, leaf.maxDef)
                         vs == IF enc = E_PLAIN THEN PlainDecode(pb, dl.p, end, leaf.type, leaf.tlen, nn)
                               ELSE IF enc \in {E_PLAIN_DICT, E_RLE_DICT} THEN
-                                   IF nn = 0 THEN [ok |-> TRUE, vals |-> <<>>, p |-> end]
+                                   IF nn = 0 THEN [ok |-> TRUE, vals |-> <<>>, p |-> end]      \* width byte optional when nothing is encoded
                                    ELSE IF dl.p >= end THEN Bad("dict-index-width-missing")
                                    ELSE LET bw == pb[dl.p]
                                         IN IF bw > 31 THEN Bad("dict-index-width")
